@@ -50,6 +50,7 @@ type c13Result struct {
 	Trace     []map[string]interface{} `json:"trace"`
 	Delivered map[string]int           `json:"delivered"` // read -> lines delivered to the consumer
 	Stuck     []int                    `json:"stuck"`     // reads that never exited
+	Hung      []int                    `json:"hung"`      // sessions whose Shutdown() did not return within 5 s
 	Problem   string                   `json:"problem"`   // harness-level trouble => inconclusive
 	Diverged  string                   `json:"diverged"`  // the real run left the TLC behaviour (e.g. another waiter got the slot)
 }
@@ -355,7 +356,9 @@ func c13Run(c c13Case, base string) (res c13Result) {
 		case "cancel":
 			ev("cancel", st.ID)
 			w.cancelld[st.ID] = true
-			w.sess[st.ID].Shutdown()
+			if !c13Shutdown(w.sess[st.ID]) {
+				res.Hung = append(res.Hung, st.ID)
+			}
 			for r := range entered {
 				if c.SessOf[r-1] == st.ID {
 					if !w.waitFor(r, "exit") {
@@ -412,8 +415,10 @@ func c13Run(c c13Case, base string) (res c13Result) {
 			}
 		}
 	}
-	for _, h := range w.sess {
-		h.Shutdown()
+	for id, h := range w.sess {
+		if !c13Shutdown(h) {
+			res.Hung = append(res.Hung, id)
+		}
 	}
 	w.settle()
 	close(stop)
@@ -485,4 +490,17 @@ func installC13Dispatch() {
 			w.(*c13World).rec.add(point, kv...)
 		}
 	})
+}
+
+// c13Shutdown ends a session the way server.go does when the connection is gone; a Shutdown() that does not come back
+// (it must not wait for a client that is no longer there) is reported instead of hanging the replay
+func c13Shutdown(h interface{ Shutdown() }) bool {
+	done := make(chan struct{})
+	go func() { h.Shutdown(); close(done) }()
+	select {
+	case <-done:
+		return true
+	case <-time.After(5 * time.Second):
+		return false
+	}
 }
